@@ -17,7 +17,10 @@
    code after the corresponding "fix:" commit:
      v_set_empty  strings.go SetWithBuffer: `if txt {` (fixed) / `if len(p) > 0 {` (pinned)
      v_deq_empty  DeepEqualWithOptions: first case `ssLn+ppLn == 0 && ssRn+ppRn == 0` (fixed) / absent
-     v_cmp_guard  Compare: `default: return nil` in the element switch (fixed) / absent *)
+     v_cmp_guard  Compare: `default: return nil` in the element switch (fixed) / absent
+     v_nil_ptr    sp(), Reset, CopyTo's destination, Set's *string / *[]byte value: the pointer is tested
+                  against nil before it is dereferenced (fixed) / dereferenced at once
+   [before_nilfix] is the code after the first three commits and before the fourth. *)
 From Coq Require Import ZArith NArith List Bool Ascii String Lia.
 From Verif Require Import Util Strconv.
 Import ListNotations.
@@ -25,9 +28,10 @@ Local Open Scope Z_scope.
 
 Definition bytes := list ascii.
 
-Record ver := { v_set_empty : bool; v_deq_empty : bool; v_cmp_guard : bool }.
-Definition fixed : ver := {| v_set_empty := true; v_deq_empty := true; v_cmp_guard := true |}.
-Definition pinned : ver := {| v_set_empty := false; v_deq_empty := false; v_cmp_guard := false |}.
+Record ver := { v_set_empty : bool; v_deq_empty : bool; v_cmp_guard : bool; v_nil_ptr : bool }.
+Definition fixed : ver := {| v_set_empty := true; v_deq_empty := true; v_cmp_guard := true; v_nil_ptr := true |}.
+Definition pinned : ver := {| v_set_empty := false; v_deq_empty := false; v_cmp_guard := false; v_nil_ptr := false |}.
+Definition before_nilfix : ver := {| v_set_empty := true; v_deq_empty := true; v_cmp_guard := true; v_nil_ptr := false |}.
 
 Inductive rep := SS | PP.
 Record elem := { e_id : Z; e_data : bytes; e_cap : Z }.
@@ -47,10 +51,11 @@ Definition znth {A} (l : list A) (i : Z) : option A :=
 
 (* ---------- sp: (ss, pp, ok) ---------- *)
 Inductive spr := SpOk (ss pp : list elem) | SpNotOk | SpPanic.
-Definition sp (x : arg) : spr :=
+Definition sp (w : ver) (x : arg) : spr :=
   match x with
   | AVal s | APtr s => match q_rep s with SS => SpOk (q_elems s) [] | PP => SpOk [] (q_elems s) end
-  | ANilPtr _ => SpPanic            (* *(x.( *[]string)) *)
+  | ANilPtr _ => if v_nil_ptr w then SpOk [] []     (* if p := x.( *[]string); p != nil { ss = *p }: no sequence *)
+                 else SpPanic                       (* *(x.( *[]string)) *)
   | AForeign => SpNotOk
   end.
 
@@ -63,10 +68,10 @@ Definition put_elems (x : arg) (l : list elem) : arg :=
 (* what lands in *buf: &ss[i] or &pp[i] *)
 Inductive gref := RStr (i : Z) | RBytes (i : Z).
 
-Definition si_get_to (x : arg) (path : list string) : out (option gref) :=
+Definition si_get_to (w : ver) (x : arg) (path : list string) : out (option gref) :=
   match path with
   | [p] =>
-    match sp x with
+    match sp w x with
     | SpPanic => Panic NilDeref
     | SpNotOk => Ret None None
     | SpOk ss pp =>
@@ -93,18 +98,18 @@ Inductive tval :=
 
 Inductive sel := SelText (p : bytes) | SelNone | SelPanic.
 (* switch value.(type) { case string: ... case *string: ... } *)
-Definition sel_ss (v : tval) : sel :=
+Definition sel_ss (w : ver) (v : tval) : sel :=
   match v with
   | TString t => SelText (t_data t)
   | TStringPtr (Some t) => SelText (t_data t)
-  | TStringPtr None => SelPanic
+  | TStringPtr None => if v_nil_ptr w then SelNone else SelPanic     (* if x := value.( *string); x != nil { ... } *)
   | _ => SelNone
   end.
-Definition sel_pp (v : tval) : sel :=
+Definition sel_pp (w : ver) (v : tval) : sel :=
   match v with
   | TBytes t => SelText (t_data t)
   | TBytesPtr (Some t) => SelText (t_data t)
-  | TBytesPtr None => SelPanic
+  | TBytesPtr None => if v_nil_ptr w then SelNone else SelPanic
   | _ => SelNone
   end.
 
@@ -124,7 +129,7 @@ Definition store (w : ver) (x : arg) (l : list elem) (idx : Z) (s : sel) (nid : 
 Definition si_set_with_buffer (w : ver) (x : arg) (v : tval) (path : list string) (nid : Z) : out (arg * Z) :=
   match path with
   | [p] =>
-    match sp x with
+    match sp w x with
     | SpPanic => Panic NilDeref
     | SpNotOk => Ret (x, nid) None
     | SpOk ss pp =>
@@ -132,8 +137,8 @@ Definition si_set_with_buffer (w : ver) (x : arg) (v : tval) (path : list string
       | None => Ret (x, nid) (Some EAtoi)
       | Some idx =>
         if idx <? 0 then Ret (x, nid) None
-        else if (0 <? zlen ss) && (idx <? zlen ss) then store w x ss idx (sel_ss v) nid
-        else if (0 <? zlen pp) && (idx <? zlen pp) then store w x pp idx (sel_pp v) nid
+        else if (0 <? zlen ss) && (idx <? zlen ss) then store w x ss idx (sel_ss w v) nid
+        else if (0 <? zlen pp) && (idx <? zlen pp) then store w x pp idx (sel_pp w v) nid
         else Ret (x, nid) None
       end
     end
@@ -175,7 +180,7 @@ Definition index_data {A} (l : list elem) (idx : Z) (k : bytes -> out A) : out A
 Definition si_compare (w : ver) (x : arg) (o : op) (right : bytes) (path : list string) : out (option bool) :=
   match path with
   | [p] =>
-    match sp x with
+    match sp w x with
     | SpPanic => Panic NilDeref
     | SpNotOk => Ret None None
     | SpOk ss pp =>
@@ -211,11 +216,11 @@ Fixpoint loop_from (mk : Z -> gref) (it : iter) (j n : nat) : list visit :=
     end
   end.
 
-Definition si_loop (x : arg) (it : iter) (path : list string) : out (list visit) :=
+Definition si_loop (w : ver) (x : arg) (it : iter) (path : list string) : out (list visit) :=
   match path with
   | _ :: _ => Ret [] None
   | [] =>
-    match sp x with
+    match sp w x with
     | SpPanic => Panic NilDeref
     | SpNotOk => Ret [] None
     | SpOk ss pp =>
@@ -241,11 +246,11 @@ Fixpoint all_eq (l r : list elem) : bool :=
   end.
 
 Definition si_deep_equal (w : ver) (l r : arg) : out bool :=
-  match sp l with
+  match sp w l with
   | SpPanic => Panic NilDeref
   | SpNotOk => Ret false None
   | SpOk ssL ppL =>
-    match sp r with
+    match sp w r with
     | SpPanic => Panic NilDeref
     | SpNotOk => Ret false None
     | SpOk ssR ppR =>
@@ -280,8 +285,8 @@ Definition append_all (d : sq) (cs : list elem) : sq :=
                 end |}
   end.
 
-Definition si_copy_to (src dst : arg) (nid : Z) : out (arg * Z) :=
-  match sp src with
+Definition si_copy_to (w : ver) (src dst : arg) (nid : Z) : out (arg * Z) :=
+  match sp w src with
   | SpPanic => Panic NilDeref
   | SpNotOk => Ret (dst, nid) (Some EUnsupported)
   | SpOk ssR ppR =>
@@ -295,10 +300,11 @@ Definition si_copy_to (src dst : arg) (nid : Z) : out (arg * Z) :=
       | PP => Ret (APtr (append_all d (copies picked nid)), nid + zlen picked) None
       end
     | ANilPtr _ =>
-      match picked with
-      | [] => Ret (dst, nid) None
-      | _ :: _ => Panic NilDeref                    (* *ss = append( *ss, cpy) *)
-      end
+      if v_nil_ptr w then Ret (dst, nid) (Some EUnsupported)    (* if ss = dst.( *[]string); ss == nil { return ErrUnsupportedType } *)
+      else match picked with
+           | [] => Ret (dst, nid) None
+           | _ :: _ => Panic NilDeref                    (* *ss = append( *ss, cpy) *)
+           end
     | AForeign => Ret (dst, nid) (Some EUnsupported)
     end
   end.
@@ -306,8 +312,8 @@ Definition si_copy_to (src dst : arg) (nid : Z) : out (arg * Z) :=
 Definition nil_sq (r : rep) : sq := {| q_rep := r; q_nil := true; q_elems := []; q_cap := Some 0 |}.
 
 (* Copy: var buf ByteBuffer; var dst []string; err := CopyTo(x, &dst, &buf); return dst, err *)
-Definition si_copy (x : arg) (nid : Z) : out (sq * Z) :=
-  match si_copy_to x (APtr (nil_sq SS)) nid with
+Definition si_copy (w : ver) (x : arg) (nid : Z) : out (sq * Z) :=
+  match si_copy_to w x (APtr (nil_sq SS)) nid with
   | Ret (APtr d, n) e => Ret (d, n) e
   | Ret (_, n) e => Ret (nil_sq SS, n) e
   | Panic k => Panic k
@@ -317,8 +323,8 @@ Definition si_copy (x : arg) (nid : Z) : out (sq * Z) :=
 (* what happened to *result *)
 Inductive wr := NotWritten | Wrote (z : Z) | WroteUnknown.
 
-Definition si_length (x : arg) (path : list string) : out wr :=
-  match sp x with
+Definition si_length (w : ver) (x : arg) (path : list string) : out wr :=
+  match sp w x with
   | SpPanic => Panic NilDeref
   | SpNotOk => Ret NotWritten None
   | SpOk ss pp =>
@@ -345,8 +351,8 @@ Definition outer_cap (x : arg) : wr :=
   | _ => NotWritten
   end.
 
-Definition si_capacity (x : arg) (path : list string) : out wr :=
-  match sp x with
+Definition si_capacity (w : ver) (x : arg) (path : list string) : out wr :=
+  match sp w x with
   | SpPanic => Panic NilDeref
   | SpNotOk => Ret NotWritten None
   | SpOk _ pp =>
@@ -364,11 +370,12 @@ Definition si_capacity (x : arg) (path : list string) : out wr :=
   end.
 
 (* ---------- Reset ---------- *)
-Definition si_reset (x : arg) : out arg :=
+Definition si_reset (w : ver) (x : arg) : out arg :=
   match x with
   | AVal _ => Ret x (Some EMustPointer)
   | APtr s => Ret (APtr {| q_rep := q_rep s; q_nil := q_nil s; q_elems := []; q_cap := q_cap s |}) None   (* ( *ss)[:0] *)
-  | ANilPtr _ => Panic NilDeref
+  | ANilPtr _ => if v_nil_ptr w then Ret x (Some EUnsupported)     (* if ss == nil { return ErrUnsupportedType } *)
+                 else Panic NilDeref                               (* *ss = ( *ss)[:0] *)
   | AForeign => Ret x None
   end.
 
@@ -422,29 +429,29 @@ Definition hstep (w : ver) (st : hst) (o : hop) : hst * obs :=
     | Panic k => (st, OPanic k)
     end
   | HGet i =>
-    match si_get_to x [i] with Ret r e => (st, OGet r e) | Panic k => (st, OPanic k) end
+    match si_get_to w x [i] with Ret r e => (st, OGet r e) | Panic k => (st, OPanic k) end
   | HCompare c r i =>
     match si_compare w x c r [i] with Ret b e => (st, OCmp b e) | Panic k => (st, OPanic k) end
   | HLength p =>
-    match si_length x p with Ret r e => (st, OWr r e) | Panic k => (st, OPanic k) end
+    match si_length w x p with Ret r e => (st, OWr r e) | Panic k => (st, OPanic k) end
   | HCapacity p =>
-    match si_capacity x p with Ret r e => (st, OWr r e) | Panic k => (st, OPanic k) end
+    match si_capacity w x p with Ret r e => (st, OWr r e) | Panic k => (st, OPanic k) end
   | HLoop =>
-    match si_loop x it_all [] with Ret vs _ => (st, OLoop vs) | Panic k => (st, OPanic k) end
+    match si_loop w x it_all [] with Ret vs _ => (st, OLoop vs) | Panic k => (st, OPanic k) end
   | HDeepEqual y =>
     match si_deep_equal w x y with Ret b _ => (st, OBool b) | Panic k => (st, OPanic k) end
   | HCopyFrom src =>
-    match si_copy_to src x nid with
+    match si_copy_to w src x nid with
     | Ret (x', n') e => ({| h_arg := x'; h_nid := n' |}, ODone e)
     | Panic k => (st, OPanic k)
     end
   | HCopyOut r =>
-    match si_copy_to x (APtr (nil_sq r)) nid with
+    match si_copy_to w x (APtr (nil_sq r)) nid with
     | Ret (d, n') e => ({| h_arg := x; h_nid := n' |}, OCopy d e)
     | Panic k => (st, OPanic k)
     end
   | HReset =>
-    match si_reset x with
+    match si_reset w x with
     | Ret x' e => ({| h_arg := x'; h_nid := nid |}, ODone e)
     | Panic k => (st, OPanic k)
     end
